@@ -106,8 +106,34 @@ theorem union_children_agree {unify : Bool} {ts : List TType} {t : TType} (h : u
   rw [← union_well_typed] at h
   exact (unionIR_spec h).2
 
-theorem join_keeps_left_key {l r t : TType} (h : TableType.join l r = some t) :
-    t.key = l.key ∧ t.globals = l.globals ++ r.globals := join_key h
+/-- **`Table.join` emits a well-typed `TableJoin`, with the type the `Table` reports**: the engine's struct concatenations
+(`left.globalType ++ right.globalType`, `leftKey ++ leftValue ++ rightValue`: fatal on a duplicate name) succeed and give what
+`TableJoin._compute_type` computes with dict updates — because of the renaming `Table.join` performs first. -/
+theorem join_well_typed (l r : TType) : joinIR l r = joinReported l r := joinIR_eq_reported l r
+
+/-- what that renaming achieves (`deduplicate` against every field name of the left table, for the right table's row-value
+fields AND its globals): the new names are pairwise distinct and none of them is a field name of the left table, so both
+concatenations are duplicate-free -/
+theorem join_renaming_duplicate_free {l r : TType} {vs gs : FieldList} (h : renameRight l r = some (vs, gs)) :
+    (names vs ++ names gs).Nodup ∧ ∀ n ∈ names vs ++ names gs, n ∉ allNames l := renameRight_spec h
+
+/-- the joined table keeps the left key; its globals are the left globals followed by the renamed right globals; its row is the
+left key fields, the left value fields, the renamed right value fields -/
+theorem join_keeps_left_key {l r t : TType} (h : joinIR l r = some t) :
+    t.key = l.key ∧ ∃ kl vs gs, keyType l = some kl ∧ renameRight l r = some (vs, gs) ∧
+      t.globals = l.globals ++ gs ∧ t.row = kl ++ valueFields l ++ vs := join_shape h
+
+/-- the renaming of the GLOBALS is necessary: with a front end that renames only the right table's row-value fields, two tables
+that both carry a global `source` give a `TableJoin` whose global struct concatenation is fatal in the engine, while the Python
+dict update silently reports ONE field -/
+theorem join_globals_must_be_renamed :
+    let l : TType := ⟨[("source", .str)], [("idx", .int32), ("x", .int32)], ["idx"]⟩
+    let r : TType := ⟨[("source", .str)], [("idx", .int32), ("x", .float64)], ["idx"]⟩
+    (renameRightRowOnly l r).map (fun p => (concatStrict l.globals p.2, concatPy l.globals p.2))
+      = some (none, some [("source", .str)]) ∧
+    joinIR l r = some ⟨[("source", .str), ("source_1", .str)],
+      [("idx", .int32), ("x", .int32), ("x_1", .float64)], ["idx"]⟩ := by
+  decide
 
 theorem orderBy_clears_key (t : TType) : (orderBy t).key = [] ∧ (orderBy t).row = t.row := orderBy_key t
 
@@ -133,7 +159,20 @@ theorem unionCols_keeps_left {l r m : MatrixType.MType} (h : MatrixType.unionCol
     m.rowKey = l.rowKey ∧ m.colKey = l.colKey ∧ m.col = l.col ∧ m.entry = l.entry ∧ m.globals = l.globals :=
   MatrixType.unionCols_keeps h
 
+/-- **`union_cols` emits a well-typed `MatrixUnionCols`**: the engine's row struct concatenation (left key ++ left value ++ right
+value, fatal on a duplicate name) succeeds and gives the reported row type, thanks to the renaming of the right row fields
+against EVERY field name of the left dataset. -/
+theorem unionCols_well_typed (l r : MatrixType.MType) : MatrixType.unionColsStrict l r = MatrixType.unionCols l r :=
+  MatrixType.unionColsStrict_eq l r
+
 /-! ## non-vacuity -/
+
+/-- a right row field named like the LEFT ROW KEY (`a`) and one named like a left value field (`b`): both renamed; the key keeps
+its type (before the repair of `union_cols` in /repo the right `a : str` overwrote the key's `int32`) -/
+example : (MatrixType.unionCols
+      ⟨[], [("col_idx", .int32)], ["col_idx"], [("row_idx", .int32), ("a", .int32), ("b", .int32)], ["a"], []⟩
+      ⟨[], [("col_idx", .int32)], ["col_idx"], [("row_idx", .int32), ("a", .str), ("b", .str)], ["row_idx"], []⟩).map (·.row)
+    = some [("a", .int32), ("row_idx", .int32), ("b", .int32), ("a_1", .str), ("b_1", .str)] := by decide
 
 /-- `key_cols_by()`: the entries table is keyed by the row key only -/
 example : (MatrixType.keyColsBy MatrixType.range []).map (fun m => (MatrixType.entriesTable m).key) = some ["row_idx"] := by decide
